@@ -152,6 +152,7 @@ class _Builder:
         self.hh: list[dict] = []
         self.tags: set[str] = set()
         self.arch: list[str] = []
+        self.swap_parents = lambda: False
 
     def new_hh(self, **attrs) -> int:
         self.hh.append(attrs)
@@ -193,6 +194,9 @@ class _Builder:
         self.rows[c]["e1"] = p1
         self.rows[c]["e2"] = p2
         self.rows[c]["kg"] = p1 if kg is None else kg
+        # which parent sits in which of the two parent columns carries no meaning
+        if p2 >= 0 and self.swap_parents():
+            self.rows[c]["e1"], self.rows[c]["e2"] = p2, p1
 
 
 def _adult_age(draw, lo=18, hi=64):
@@ -248,7 +252,7 @@ def _draw_household(draw, b: _Builder, arch: str, max_children: int):
         married = draw(st.booleans())
         pa = _adult_age(draw, 20, 60)
         a = b.add(hh, pa, weiblich=True)
-        c = b.add(hh, _adult_age(draw, 20, 60), weiblich=False)
+        c = b.add(hh, _adult_age(draw, 20, 68), weiblich=False)
         b.couple(a, c, married, joint=draw(st.booleans()))
         youngest = min(pa, b.rows[c]["alter"])
         for _ in range(draw(nkids)):
@@ -656,10 +660,15 @@ def populations(draw, date, mode="branch", max_households=5, max_children=4,
     b = _Builder(date)
     archs = archetypes or ARCHETYPES
     n_hh = draw(st.integers(1, max_households))
+    b.swap_parents = lambda: draw(st.booleans())
     for _ in range(n_hh):
         if len(b.hh) >= max_households:
             break
         _draw_household(draw, b, draw(st.sampled_from(archs)), max_children)
+    # early / regular pensioners also occur inside families (couples with children, patchwork)
+    for r in b.rows:
+        if r["alter"] >= 60 and not r["rentner"] and draw(st.integers(0, 2)) == 0:
+            r["rentner"] = True
     fill_seed = draw(st.integers(0, 2**31 - 1))
     id_mode = draw(st.sampled_from(["dense", "sparse", "sparse"]))
     shuf = draw(st.booleans()) if shuffle is None else shuffle
